@@ -58,6 +58,16 @@ func addT(a, b Term) Term {
 	return app(SInt, "+", a, b)
 }
 
+// idxT is the absolute position of element i of a slice with offset off. It is an uninterpreted
+// function (defined by an axiom as off + i) so that quantifier patterns over element reads match
+// whatever arithmetic shape the index expression has.
+func idxT(off, i Term) Term {
+	if off.S == "0" {
+		return i
+	}
+	return app(SInt, "idx", off, i)
+}
+
 func intLit(n int64) Term {
 	if n < 0 {
 		return Term{fmt.Sprintf("(- %d)", -n), SInt}
@@ -374,6 +384,8 @@ func quoteSym(s string) string {
 
 const smtPrelude = `(declare-datatypes ((Slice 0)) (((mkslice (sarr Int) (soff Int) (slen Int) (scap Int)))))
 (declare-datatypes ((Iface 0)) (((mkiface (itag Int) (ival Int)))))
+(declare-fun idx (Int Int) Int)
+(assert (forall ((o Int) (i Int)) (! (= (idx o i) (+ o i)) :pattern ((idx o i)) :qid |idx.def|)))
 (declare-fun sk (String) Int)
 (declare-fun ks (Int) String)
 (assert (forall ((s String)) (! (= (ks (sk s)) s) :pattern ((sk s)))))
